@@ -52,24 +52,25 @@ def deliberate():
 
 def run(ck):
     thorough = ck.tier == "thorough"
+    binp = ck.gobuild("sharda")
+    world = su.detect_world(ck, binp)
     if not ck.replay and not os.environ.get("VERIF_SKIP_MODEL"):   # (dev aid for mutation runs: the model check does not depend on the tree)
-        r = ck.tlc_model("Shard", "Shard_C44.cfg", timeout=1500)
+        r = ck.tlc_model("Shard", "Shard_C44.cfg", timeout=1500, files=su.cfg_files(world, "Shard_C44.cfg"))
         if "Checking temporal properties" not in r.out and "temporal properties" not in r.out:
             raise vkit.Infra("liveness was not checked")
         if thorough:
-            ck.tlc_model("Shard", "Shard_C44t.cfg", timeout=3000)
-            ck.tlc_model("Shard", "Shard_C44u.cfg", timeout=3000)
+            ck.tlc_model("Shard", "Shard_C44t.cfg", timeout=3000, files=su.cfg_files(world, "Shard_C44t.cfg"))
+            ck.tlc_model("Shard", "Shard_C44u.cfg", timeout=3000, files=su.cfg_files(world, "Shard_C44u.cfg"))
         ck.setcov("exhaustive", True)
         ck.setcov("liveness_checked", "C44Live C44Stable under WF(GC progress) /\\ SF(epoch tick), no state constraint")
         ck.setcov("constants", "quick: Objs={1,3 TS->1,5} batch=1 epochs 0..3 Put GC Epoch InhumeCnr Quiesce, K=6" +
                   ("; thorough adds Objs={2 exp1,4 LOCK->2,5} wc=on MarkDef K=8 and Objs={1,3,5} wc=on MarkRed K=6" if thorough else ""))
-    binp = ck.gobuild("sharda")
     if ck.replay:
         scripts = [json.load(open(ck.replay))["replay"]["script"]]
     else:
         scripts = deliberate()
         for s in range(3 if thorough else 1):
-            scripts += ck.tlc_scripts("ShardGen", "ShardGen_C44.cfg", num=1000 if thorough else 80, depth=9,
+            scripts += ck.tlc_scripts("ShardGen", "ShardGen_C44.cfg", files=su.cfg_files(world, "ShardGen_C44.cfg"), num=1000 if thorough else 80, depth=9,
                                       seed=ck.seed * 10 + s, timeout=900)
         for sc in scripts:
             sc["steps"] = list(sc["steps"]) + [SETTLE]
@@ -77,7 +78,7 @@ def run(ck):
     ck.log("harness: %s" % info)
     if info.get("scripts", 0) - info.get("skipped", 0) < max(1, len(scripts) // 2):
         raise vkit.Infra("too many behaviours discarded: %s" % info)
-    v = su.validate(ck, "TraceShard_C44.cfg", tp)
+    v = su.validate(ck, "TraceShard_C44.cfg", tp, world=world)
     ev = v.events
     if not v.r.ok and v.stuck and ev[v.stuck[0] - 1].get("op") == "ExpectClean" and v.stuck[1] and v.stuck[1][0][0] == "nostep":
         pos = v.stuck[0]
